@@ -57,6 +57,9 @@ type Hub struct {
 
 	hasStarted bool
 
+	// set by Shutdown, no connection is initiated afterwards
+	isShutdown bool
+
 	muxCon        sync.Mutex
 	muxConAttempt sync.Mutex
 	muxReg        sync.Mutex
@@ -91,6 +94,7 @@ var _ api.HubInterface = (*Hub)(nil)
 func (h *Hub) Start() {
 	h.muxStarted.Lock()
 	h.hasStarted = true
+	h.isShutdown = false
 	h.muxStarted.Unlock()
 
 	// start the websocket server
@@ -107,6 +111,10 @@ func (h *Hub) Start() {
 
 // close all connections
 func (h *Hub) Shutdown() {
+	h.muxStarted.Lock()
+	h.isShutdown = true
+	h.muxStarted.Unlock()
+
 	h.mdns.Shutdown()
 	for _, c := range h.connections {
 		c.CloseConnection(false, 0, "")
